@@ -224,7 +224,8 @@ func (c *Context) Ask(recipient vivid.ActorRef, message vivid.Message, timeout .
 
 func (c *Context) ask(system bool, recipient vivid.ActorRef, message vivid.Message, timeout ...time.Duration) vivid.Future[vivid.Message] {
 	var askTimeout = c.options.DefaultAskTimeout
-	if len(timeout) > 0 {
+	// 与默认超时配置项一致：零值或负值无效，沿用默认超时；否则 Future 不会安装定时器，无人回复时将永久等待
+	if len(timeout) > 0 && timeout[0] > 0 {
 		askTimeout = timeout[0]
 	}
 
